@@ -437,6 +437,9 @@ def equal(a, b):
     raise CheckerError('equality on %r / %r' % (ka, kb))
 
 
+STR_LE = z3.Function('str_le', z3.StringSort(), z3.StringSort(), z3.BoolSort())
+
+
 def compare(op, a, b):
     """op in '<','<=','>','>=' on numbers / extended reals / strings."""
     ka, kb = kind_of(a), kind_of(b)
@@ -462,15 +465,17 @@ def compare(op, a, b):
         za, zb = a.z, b.z
         return {'<': za < zb, '<=': za <= zb, '>': za > zb, '>=': za >= zb}[op]
     if ka == KStr and kb == KStr:
+        # the lexicographic order of strings is kept abstract: an uninterpreted relation (no law is given to the
+        # solver, so only what follows from the very same comparisons is provable - weaker than the real order, sound)
         za, zb = lift(a).z, lift(b).z
         if op == '<':
-            return z3.StrLT(za, zb) if hasattr(z3, 'StrLT') else za < zb
+            return z3.Not(STR_LE(zb, za))
         if op == '<=':
-            return za <= zb
+            return STR_LE(za, zb)
         if op == '>':
-            return zb < za
+            return z3.Not(STR_LE(za, zb))
         if op == '>=':
-            return zb <= za
+            return STR_LE(zb, za)
     if isinstance(ka, (KTuple,)) or isinstance(a, TupleVal):
         # lexicographic
         ia, ib = tuple_items(a), tuple_items(b)
